@@ -111,7 +111,7 @@ Section Msgpack.
   Import Wire.Msgpack Wire.MsgpackProofs Wire.MsgpackRT.
 
   Theorem C11_msgpack_skip : forall (O : eopts) (D : dopts) (i : item) (d0 : Z) (rest : list N),
-    supported i -> (Z.of_nat (depth i) < maxdepth D)%Z -> (d0 + Z.of_nat (depth i) < maxdepth D)%Z ->
+    supported i -> sint_ok D i -> (Z.of_nat (depth i) < maxdepth D)%Z -> (d0 + Z.of_nat (depth i) < maxdepth D)%Z ->
     goslice (len (enc O i ++ rest)) ->
     dec_naked D (dec_fuel (enc O i ++ rest)) (enc O i ++ rest) = Ok (norm O D i, rest)
     /\ skip_at D d0 (dec_fuel (enc O i ++ rest)) (enc O i ++ rest) = Ok rest.
@@ -119,7 +119,7 @@ Section Msgpack.
   Print Assumptions C11_msgpack_skip.
 
   Theorem C11_msgpack_raw : forall (O : eopts) (D : dopts) (i : item) (d0 : Z) (rest rest' : list N),
-    supported i -> (Z.of_nat (depth i) < maxdepth D)%Z -> (d0 + Z.of_nat (depth i) < maxdepth D)%Z ->
+    supported i -> sint_ok D i -> (Z.of_nat (depth i) < maxdepth D)%Z -> (d0 + Z.of_nat (depth i) < maxdepth D)%Z ->
     goslice (len (enc O i ++ rest')) ->
     capture (enc O i ++ rest) (skip_at D d0 (dec_fuel (enc O i ++ rest)) (enc O i ++ rest)) = Ok (enc O i, rest)
     /\ dec_naked D (dec_fuel (enc O i ++ rest')) (enc O i ++ rest') = Ok (norm O D i, rest').
